@@ -566,21 +566,36 @@ impl<R: Read + Seek> Seek for CompressionLayerReader<'_, R> {
 struct WriterWithCount<W: Write> {
     inner: W,
     pos: u32,
+    /// Kind of the first error reported by `inner`: `CompressorWriter::into_inner`
+    /// drops the errors of its final writes, so they are checked afterwards
+    error: Option<io::ErrorKind>,
 }
 
 impl<W: Write> WriterWithCount<W> {
     const fn new(inner: W) -> Self {
-        Self { inner, pos: 0 }
+        Self {
+            inner,
+            pos: 0,
+            error: None,
+        }
     }
 
     fn into_inner(self) -> W {
         self.inner
     }
+
+    /// Fails if a write of the inner writer failed (other than by an interruption)
+    fn check_no_error(&self) -> io::Result<()> {
+        match self.error {
+            Some(kind) => Err(io::Error::new(kind, "Inner writer error while compressing")),
+            None => Ok(()),
+        }
+    }
 }
 
 impl<W: Write> Write for WriterWithCount<W> {
     fn write(&mut self, buf: &[u8]) -> io::Result<usize> {
-        self.inner.write(buf).inspect(|&i| {
+        let res = self.inner.write(buf).inspect(|&i| {
             match u32::try_from(i) {
                 Ok(value) => self.pos += value,
                 Err(_) => {
@@ -588,7 +603,13 @@ impl<W: Write> Write for WriterWithCount<W> {
                     let _ = io::Error::new(io::ErrorKind::InvalidData, "Integer conversion failed");
                 }
             }
-        })
+        });
+        if let Err(e) = &res {
+            if e.kind() != io::ErrorKind::Interrupted && self.error.is_none() {
+                self.error = Some(e.kind());
+            }
+        }
+        res
     }
 
     fn flush(&mut self) -> io::Result<()> {
@@ -676,7 +697,11 @@ impl<'a, W: 'a + InnerWriterTrait> LayerWriter<'a, W> for CompressionLayerWriter
         let mut inner = match old_state {
             CompressionLayerWriterState::Ready(inner) => inner,
             CompressionLayerWriterState::InData(written, compress) => {
+                let mut compress = compress;
+                // Errors of earlier writes have already been returned to the caller
+                compress.get_mut().error = None;
                 let inner_count = compress.into_inner();
+                inner_count.check_no_error()?;
                 self.compressed_sizes.push(inner_count.pos);
                 last_block_size = written;
                 inner_count.into_inner()
@@ -756,7 +781,10 @@ impl<'a, W: 'a + InnerWriterTrait> Write for CompressionLayerWriter<'a, W> {
                     ).into());
                 }
                 if written == UNCOMPRESSED_DATA_SIZE {
+                    // Errors of earlier writes have already been returned to the caller
+                    compress.get_mut().error = None;
                     let inner_count = compress.into_inner();
+                    inner_count.check_no_error()?;
                     self.compressed_sizes.push(inner_count.pos);
                     self.state = CompressionLayerWriterState::Ready(inner_count.into_inner());
                     // Start a new block, fill it with new values!
